@@ -169,6 +169,13 @@ pub fn record(args: &[String]) {
                     chunkings.push(v);
                 }
             }
+            // the skipped header bytes arriving over three or more tiny chunks
+            for lead in [vec![3usize, 5], vec![3, 3, 2], vec![1; 8], vec![0, 3, 5], vec![2, 2, 2, 2], vec![4, 3, 2], vec![7, 0, 1]] {
+                let used: usize = lead.iter().sum();
+                let mut v = lead.clone();
+                v.push(payload_len - used);
+                chunkings.push(v);
+            }
             for _ in 0..(if thorough { 60 } else { 6 }) {
                 let k = rng.gen_range(2..9);
                 let mut v = vec![];
